@@ -355,6 +355,49 @@ def check_dtypes(run, jax, jnp, ex):
                         run.violation(dict(key, mode=f"repeat leaf {leaf}"), {"got_dtype": str(gf.dtype)})
 
 
+def check_long_horizons(run, jnp, ex):
+    """The number of applications is n for every n, not only the small ones the machine enumerates: a counting stepper (u -> 2u + 1 mod p,
+    injective on residues) over long horizons, autonomous and with auxiliary input, eager and through RepeatedStepper's dt bookkeeping."""
+    P = 1000003
+
+    def step(u):
+        return (2 * u + 1) % P
+
+    def step_aux(u, a):
+        return (2 * u + a) % P
+    for n in (97, 99, 100, 101, 110, 120, 132, 143, 144, 255, 256, 257, 1000):
+        want = 5
+        for _ in range(n):
+            want = (2 * want + 1) % P
+        run.case(("long", n))
+        got = int(ex.repeat(step, n)(jnp.asarray(5, dtype=jnp.int64)))
+        got_aux = int(ex.repeat(step_aux, n, takes_aux=True, constant_aux=True)(jnp.asarray(5, dtype=jnp.int64), jnp.asarray(1, dtype=jnp.int64)))
+        trj = np.asarray(ex.rollout(step, n, include_init=True)(jnp.asarray(5, dtype=jnp.int64)))
+        if got != want or got_aux != want or trj.shape != (n + 1,) or int(trj[-1]) != want or int(trj[0]) != 5:
+            run.violation({"kind": "long-horizon", "what": f"n={n}"}, {"repeat": got, "repeat_aux": got_aux, "rollout_last": int(trj[-1]) if trj.size else None,
+                                                                         "rollout_len": list(trj.shape), "want": want})
+    # nested wrappers: the effective time step multiplies through every level, and a forced nested wrapper kicks with it
+    st = ex.stepper.Diffusion(1, 2.0, 16, 0.1, diffusivity=0.05)
+    for m, n in ((2, 3), (3, 2), (1, 4), (4, 1)):
+        inner = ex.RepeatedStepper(st, m)
+        outer = ex.RepeatedStepper(inner, n)
+        run.case(("nested", m, n))
+        u = jnp.asarray(np.cos(np.arange(16) * 2 * np.pi / 16)[None] + 0.3)
+        f = jnp.asarray(np.sin(np.arange(16) * 4 * np.pi / 16)[None])
+        want = u
+        for _ in range(m * n):
+            want = st(want)
+        key = {"kind": "RepeatedStepper", "cls": "Diffusion", "D": 1, "N": 16, "m": f"{m}x{n}", "what": "nested"}
+        if abs(outer.dt - m * n * st.dt) > 1e-12 or maxabs(np.asarray(outer(u)) - np.asarray(want)) > 1e-12:
+            run.violation(key, {"dt": float(outer.dt), "want_dt": m * n * st.dt})
+        got = np.asarray(ex.ForcedStepper(outer)(u, f))
+        wantf = u + m * n * st.dt * f
+        for _ in range(m * n):
+            wantf = st(wantf)
+        if maxabs(got - np.asarray(wantf)) > 1e-12:
+            run.violation(dict(key, what="ForcedStepper around nested wrappers"), {"err": maxabs(got - np.asarray(wantf))})
+
+
 def check_ic_set(run, jax, jnp, ex):
     import jax.random as jr
     for D, N in ((1, 16), (2, 8)):
@@ -455,6 +498,7 @@ def run(tier: str, seed: int) -> int:
     check_wrappers(run_, jax, jnp, ex, rng, tier)
     check_ic_set(run_, jax, jnp, ex)
     check_dtypes(run_, jax, jnp, ex)
+    check_long_horizons(run_, jnp, ex)
     run_.extra['t_wrappers'] = round(_t.time() - _t0, 1)
     run_.rule = ("replay: one case per terminal TLC state (configuration) x {eager, jit}; trace: one recorded execution per configuration "
                  "x {python-loop scan, jitted with ordered callback}; wrappers: (class, D, N, m); distinct = distinct case key")
